@@ -1549,7 +1549,9 @@ func (t *Terminal) UpdateList(merger *Merger) {
 		t.revision = newRevision
 		t.version++
 	}
-	if t.triggerLoad {
+	// The result of a search that was started before the input ended is
+	// not the list for the complete input
+	if t.triggerLoad && merger.final {
 		t.triggerLoad = false
 		t.eventChan <- tui.Load.AsEvent()
 	}
@@ -1570,7 +1572,7 @@ func (t *Terminal) UpdateList(merger *Merger) {
 		}
 	}
 	needActivation := false
-	if !t.reading {
+	if !t.reading && merger.final {
 		switch t.merger.Length() {
 		case 0:
 			zero := tui.Zero.AsEvent()
